@@ -2453,6 +2453,52 @@ fn yaml_quote_key(s: &str, in_flow: bool) -> String {
     }
 }
 
+/// Verification hook (feature `verif-hooks`): a line server over this file's
+/// private quoting functions, so the external harness can drive them without
+/// spawning one process per string. Request `<op> <hex utf-8> [style] [flow]`,
+/// response one line of hex (or `0`/`1`). Add-only; not compiled without the
+/// feature.
+#[cfg(feature = "verif-hooks")]
+pub fn verif_quote_server() -> Result<i32> {
+    use std::io::BufRead;
+    fn unhex(s: &str) -> String {
+        if s == "-" {
+            return String::new();
+        }
+        let b: Vec<u8> = (0..s.len() / 2)
+            .map(|i| u8::from_str_radix(&s[2 * i..2 * i + 2], 16).unwrap_or(0))
+            .collect();
+        String::from_utf8_lossy(&b).into_owned()
+    }
+    fn hex(s: &str) -> String {
+        if s.is_empty() {
+            return "-".to_string();
+        }
+        s.bytes().map(|b| format!("{b:02x}")).collect()
+    }
+    let stdin = std::io::stdin();
+    let stdout = std::io::stdout();
+    let mut out = stdout.lock();
+    for line in stdin.lock().lines() {
+        let line = line?;
+        let a: Vec<&str> = line.split(' ').collect();
+        let s = unhex(a.get(1).copied().unwrap_or("-"));
+        let style = a.get(2).copied().unwrap_or("");
+        let in_flow = a.get(3).copied() == Some("1");
+        let r = match a[0] {
+            "v" => hex(&yaml_quote_string_with_style(&s, style, in_flow)),
+            "k" => hex(&yaml_quote_key(&s, in_flow)),
+            "d" => hex(&yaml_double_quote_escaped(&s)),
+            "s" => hex(&yaml_single_quote_escaped(&s)),
+            "c" => (can_single_quote(&s) as u8).to_string(),
+            _ => "BAD-OP".to_string(),
+        };
+        writeln!(out, "{r}")?;
+        out.flush()?;
+    }
+    Ok(0)
+}
+
 /// Whether a compact block-sequence item's remaining source (the text
 /// right after `- `, as returned by `Chars::as_str()` at that point) opens
 /// with a mapping key rather than a scalar value — i.e. whether an
